@@ -461,3 +461,148 @@ def digraph_case(n, edge_mask, order, dtype, label):
     return {"modules": [mods[names[i]] for i in order], "attempts": attempts,
             "handlers": {nm: {"ports": {"o": ["raw"]}, "ret_none": False} for nm in names},
             "ext": {}, "enforce": True, "runs": 1, "faults": ["digraph-sweep"], "topo": None}
+
+
+# ---------------------------------------------------------------------------- handler return order
+def permute_handler_orders(case, rng, p=0.7):
+    """A handler may list its output ports in any order: reorder the keys of multi-port handler programs
+    (the stub returns its dict in program order; the model never looks at the order)."""
+    progs = [case["handlers"]] + [ph["handlers"] for ph in case.get("phases", [])]
+    changed = False
+    for handlers in progs:
+        for name in sorted(handlers):
+            ports = handlers[name]["ports"]
+            if len(ports) >= 2 and rng.random() < p:
+                keys = list(ports)
+                if rng.random() < 0.5:
+                    keys.reverse()
+                else:
+                    rng.shuffle(keys)
+                handlers[name]["ports"] = {k: ports[k] for k in keys}
+                changed = True
+    return changed
+
+
+# ---------------------------------------------------------------------------- histories on one executor
+# A case may carry "phases": [{"modules": [...new], "attempts": [...new], "handlers": {name: prog (registered or
+# re-registered)}, "ext": {...external inputs of this phase}, "enforce": bool, "runs": k}, ...].  Phase 0 is the case
+# itself.  All phases act on ONE diagram and ONE executor; the model re-analyses the cumulative diagram per phase.
+def phase_list(case):
+    first = {k: case[k] for k in ("modules", "attempts", "handlers", "ext", "enforce", "runs")}
+    return [first] + list(case.get("phases") or [])
+
+
+def build_history(case, groups, late_mods=(), temp_ext=None, keep_temp=False, enforce=None, runs=None):
+    """Defer parts of a one-shot case to later phases (in place).
+    groups    : list (one per later phase) of lists of indices into case["attempts"];
+    late_mods : module names that are only added in phase 1 (with their handlers and external inputs); every
+                attempt touching them must be in some group;
+    temp_ext  : {(module, port): spec} external inputs supplied only while the first deferred wire into that port
+                has not been attempted yet (keep_temp: keep supplying them afterwards as well)."""
+    temp_ext = temp_ext or {}
+    late = set(late_mods)
+    atts = case["attempts"]
+    when = {}
+    for j, g in enumerate(groups):
+        for i in g:
+            when[i] = j + 1
+    arrives = {}
+    for i, a in enumerate(atts):
+        if i in when and attempt_expectation(case, a)[0]:
+            arrives.setdefault((a[2], a[3]), when[i])
+    final_ext, final_handlers, final_mods = case["ext"], case["handlers"], case["modules"]
+    nph = len(groups) + 1
+
+    def ext_at(j):
+        e = {m: dict(ps) for m, ps in final_ext.items() if not (m in late and j == 0)}
+        for (m, p), spec in temp_ext.items():
+            if m in late and j == 0:
+                continue
+            if keep_temp or j < arrives.get((m, p), nph):
+                e.setdefault(m, {})[p] = spec
+        return {m: ps for m, ps in e.items() if ps}
+
+    phases = []
+    for j in range(1, nph):
+        phases.append({"modules": [m for m in final_mods if m["name"] in late] if j == 1 else [],
+                       "attempts": [atts[i] for i in sorted(when) if when[i] == j],
+                       "handlers": {n: final_handlers[n] for n in final_handlers if n in late} if j == 1 else {},
+                       "ext": ext_at(j),
+                       "enforce": case["enforce"] if enforce is None else enforce[j - 1],
+                       "runs": 1 if runs is None else runs[j - 1]})
+    case["modules"] = [m for m in final_mods if m["name"] not in late]
+    case["attempts"] = [a for i, a in enumerate(atts) if i not in when]
+    case["handlers"] = {n: final_handlers[n] for n in final_handlers if n not in late}
+    case["ext"] = ext_at(0)
+    case["phases"] = phases
+    return case
+
+
+def split_phases(case, rng, dtypes, labels):
+    """Random history: some wires (sometimes modules, handler programs) reach the diagram only after the executor ran."""
+    mods = mod_index(case)
+    names = [m["name"] for m in case["modules"]]
+    atts = case["attempts"]
+    late = []
+    if len(names) >= 2 and rng.random() < 0.25:
+        late = names[-rng.randint(1, min(2, len(names) - 1)):]
+    touching = [i for i, a in enumerate(atts) if a[0] in late or a[2] in late]
+    others = [i for i in range(len(atts)) if i not in touching]
+    deferred = list(touching)
+    if others and (not late or rng.random() < 0.5):
+        deferred += rng.sample(others, min(len(others), rng.choice([1, 1, 1, 2, 2, 3])))
+    rng.shuffle(deferred)
+    if len(deferred) >= 2 and rng.random() < 0.3:
+        cut = rng.randint(1, len(deferred) - 1)
+        groups = [deferred[:cut], deferred[cut:]]
+    else:
+        groups = [deferred]      # possibly empty: the same diagram is simply executed again later
+    temp = {}
+    for i in deferred:
+        a = atts[i]
+        if not attempt_expectation(case, a)[0]:
+            continue
+        key = (a[2], a[3])
+        if key in temp or a[3] in case["ext"].get(a[2], {}):
+            continue
+        if any(j not in deferred and atts[j][2:] == a[2:] and attempt_expectation(case, atts[j])[0] for j in range(len(atts))):
+            continue
+        if rng.random() < 0.75:
+            dt, req = mods[a[2]]["inputs"][a[3]]
+            temp[key] = ["raw"] if rng.random() < 0.5 else ["tv", dt, rng.choice([l for l in labels if l >= req])]
+    final_handlers = case["handlers"]
+    build_history(case, groups, late_mods=late, temp_ext=temp, keep_temp=rng.random() < 0.08,
+                  enforce=[case["enforce"] if rng.random() < 0.8 else not case["enforce"] for _ in groups],
+                  runs=[2 if rng.random() < 0.2 else 1 for _ in groups])
+    # a handler program that is replaced (re-registered) after the first phase
+    c = [n for n in case["handlers"] if n in mods and mods[n]["outputs"]]
+    if c and rng.random() < 0.15:
+        n = rng.choice(sorted(c))
+        p = rng.choice(sorted(mods[n]["outputs"]))
+        dt, il = mods[n]["outputs"][p]
+        r = rng.random()
+        if r < 0.35:
+            spec = ["raw"]
+        elif r < 0.6:
+            spec = ["tv", dt, il]
+        elif r < 0.8:
+            spec = ["tv", dt, rng.choice(labels)]
+        else:
+            spec = ["tv", rng.choice(dtypes), il]
+        first = {"ports": dict(final_handlers[n]["ports"]), "ret_none": final_handlers[n].get("ret_none", False)}
+        first["ports"][p] = spec
+        case["handlers"][n] = first
+        case["phases"][-1]["handlers"][n] = final_handlers[n]
+    case["faults"] = list(case["faults"]) + ["history"]
+    return case
+
+
+def incremental(case, spec=("raw",)):
+    """Every attempted wire arrives in a phase of its own; until then its destination port is fed externally."""
+    temp = {}
+    for a in case["attempts"]:
+        if attempt_expectation(case, a)[0]:
+            temp.setdefault((a[2], a[3]), list(spec))
+    build_history(case, [[i] for i in range(len(case["attempts"]))], temp_ext=temp)
+    case["faults"] = list(case["faults"]) + ["incremental"]
+    return case
